@@ -617,10 +617,12 @@ Lemma popen_follow_ok fuel h base sub fl :
   real_fd (ph_fd h) = true -> okf Qfd (popen_follow fz cfg fuel h base sub fl).
 Proof.
   intro Hh. unfold popen_follow.
-  destruct (_ || _); [constructor; exact I|].
+  destruct (negb _ && _); [constructor; exact I|].
   destruct (path_strip_trailing_slash sub) as [sub' ts].
+  destruct (OPEN_FOLLOW_REFUSAL_AFTER_SLASH && _); [constructor; exact I|].
   eapply okp_bind; [eapply okp_weaken_P; [apply Pdn_Pd|]; apply preadlink_ok; assumption|]. intros rl _.
-  destruct rl as [_b|e]; [|eapply okp_weaken_P; [apply Pdn_Pd|]; apply popen_ok; assumption].
+  destruct rl as [_b|e];
+    [|destruct (_ && negb _); [constructor; exact I|eapply okp_weaken_P; [apply Pdn_Pd|]; apply popen_ok; assumption]].
   destruct (path_split sub') as [[[parent [trailing|]]|e]|] eqn:Hsp; try (constructor; exact I);
     [|exfalso; exact (path_split_total _ Hsp)].
   eapply okp_bindR; [eapply okp_weaken_P; [apply Pdn_Pd|]; apply popen_ok; assumption| |intro; exact I].
